@@ -304,8 +304,12 @@ class Scheduler(Hooks):
             # other request's COMMIT ends it and the statements that follow
             # here run in autocommit mode
             try:
-                dbapi = session.connection().connection.dbapi_connection
+                sa_conn = session.connection()
+                dbapi = sa_conn.connection.dbapi_connection
                 dbapi.rollback()
+                st = getattr(sa_conn.engine, '_verif_txn_state', None)
+                if st is not None:
+                    st['owner'] = None
             except Exception:
                 dbapi = None
         self.main.switch('txn')
@@ -318,7 +322,11 @@ class Scheduler(Hooks):
                 dbapi.execute('BEGIN')
                 # oslo.db keeps "a transaction is open" in the (shared)
                 # connection record; the other request's COMMIT cleared it
-                session.connection().info['in_transaction'] = True
+                sa_conn = session.connection()
+                sa_conn.info['in_transaction'] = True
+                st = getattr(sa_conn.engine, '_verif_txn_state', None)
+                if st is not None:
+                    st['owner'] = id(sa_conn)
             except Exception:
                 pass
         if self.observe is not None:
@@ -414,7 +422,72 @@ def install_scheduler(world, contended=CONTENDED):
     rl.listen(Session, 'after_begin', after_begin)
     rl.listen(Session, 'before_commit', before_commit)
     rl.listen(world.backend.engine, 'before_execute', before_execute)
-    return s, rl.remove
+    un_join = _join_nested_transactions(world.backend.engine, rl)
+
+    def remove():
+        rl.remove()
+        un_join()
+    return s, remove
+
+
+def _join_nested_transactions(engine, rl):
+    """All sessions of a replay share the one DBAPI connection of the
+    in-memory SQLite database.  placement opens an *independent* transaction
+    inside an open one (replace_all() re-reads the providers before a retry);
+    in production that is another connection and the outer transaction stays
+    open.  Here its ROLLBACK/COMMIT would end the outer transaction, whose
+    remaining statements would then run in autocommit mode.  So: the first
+    SQLAlchemy connection that begins owns the DBAPI transaction; a
+    connection that begins while it is open joins it, and its end is not
+    passed to the driver."""
+    state = dict(owner=None, skip=False)
+    engine._verif_txn_state = state
+    dialect = engine.dialect
+    real_rollback, real_commit = dialect.do_rollback, dialect.do_commit
+
+    def on_begin(conn):
+        if state['owner'] is None:
+            state['owner'] = id(conn)
+
+    def on_end(conn):
+        if state['owner'] == id(conn) or state['owner'] is None:
+            state['owner'] = None
+        else:
+            state['skip'] = True
+            # oslo.db's own listener forgets that a transaction is open
+            conn.info['verif_rejoin'] = True
+
+    # the owner's own end clears state['owner'] (event, before the driver
+    # call); every driver-level end that arrives while somebody owns an open
+    # transaction comes from a joiner (its end, or the pool's reset when its
+    # connection is returned) and is not passed on
+    def do_rollback(dbapi_conn):
+        if state['owner'] is not None:
+            return
+        real_rollback(dbapi_conn)
+
+    def do_commit(dbapi_conn):
+        if state['owner'] is not None:
+            return
+        real_commit(dbapi_conn)
+
+    def after_end(conn):
+        if conn.info.pop('verif_rejoin', False):
+            conn.info['in_transaction'] = True
+    rl.listen(engine, 'begin', on_begin)
+    rl.listen(engine, 'rollback', on_end)
+    rl.listen(engine, 'commit', on_end)
+    dialect.do_rollback, dialect.do_commit = do_rollback, do_commit
+
+    def undo():
+        dialect.do_rollback, dialect.do_commit = real_rollback, real_commit
+    # after the driver call SQLAlchemy has no event; restore oslo.db's flag
+    # lazily: the next 'begin' of any connection sees it through on_begin2
+    def on_begin2(conn):
+        if state['owner'] is not None and state['owner'] != id(conn):
+            conn.info['in_transaction'] = True
+    rl.listen(engine, 'begin', on_begin2, )
+    return undo
 
 
 class Multi(Hooks):
